@@ -59,6 +59,15 @@ def make_model(rng, dt, acts):
     return m.to(dt)    # the scale buffers are created in float32: move them to the model dtype
 
 
+def drop_leaked(base_ids):
+    """remove global hooks that outlived their context, so that what follows is judged on its own"""
+    import torch.nn.modules.module as M
+    for reg, keep in ((M._global_forward_pre_hooks, base_ids[0]), (M._global_forward_hooks, base_ids[1])):
+        for k in list(reg.keys()):
+            if k not in keep:
+                del reg[k]
+
+
 def run_trace(ctx, rng, lines, expect):
     """one random well-nested trace; returns nothing, records failures"""
     from optimum.quanto import Calibration
@@ -104,6 +113,8 @@ def run_trace(ctx, rng, lines, expect):
         body(0)
     except Boom:
         pass
+    except Exception as e:  # noqa — e.g. a leaked hook of an earlier context acting on this model
+        ctx.spec_failures.append((f"C13:forward-raises-during-trace:{exc_name(e)}", {"events": events, "message": str(e)[:200]}))
     ctx.evaluations += 1
     ctx.count(f"trace:events={min(len(events), 12)}")
     rel = [(a - base[0], b - base[1], c - base[2]) for a, b, c in states]
@@ -114,11 +125,15 @@ def run_trace(ctx, rng, lines, expect):
     end = registry_state()
     if end != base or registry_ids() != base_ids:
         ctx.spec_failures.append(("C13:registries-not-restored", {"events": events, "before": base, "after": end}))
+        drop_leaked(base_ids)
     # a module created and run afterwards is unaffected
     fresh = make_model(rng, dt, "qint8")
     before = snapshot(fresh)
-    with torch.no_grad():
-        fresh(x)
+    try:
+        with torch.no_grad():
+            fresh(x)
+    except Exception as e:  # noqa
+        ctx.spec_failures.append((f"C13:module-run-after-context-raises:{exc_name(e)}", {"events": events, "message": str(e)[:200]}))
     if snapshot(fresh) != before:
         ctx.spec_failures.append(("C13:module-run-after-context-is-modified", {"events": events}))
 
@@ -147,8 +162,13 @@ def side_effect_cases(ctx, rng):
         state = rng.choice(["unfrozen", "calibrated", "frozen", "calibrated+frozen"])
         with torch.no_grad():
             if "calibrated" in state and acts is not None:
-                with Calibration(streamline=rng.random() < 0.5):
+                reg0, ids0 = registry_state(), registry_ids()
+                sl = rng.random() < 0.5
+                with Calibration(streamline=sl):
                     fm(x)
+                if registry_state() != reg0 or registry_ids() != ids0:
+                    ctx.spec_failures.append(("C13:registries-not-restored", {"events": [f"enter streamline={sl}", "forward", "exit"], "before": reg0, "after": registry_state()}))
+                    drop_leaked(ids0)
             if "frozen" in state:
                 wsrc = {k: (v, tensor_hash(v)) for k, v in fm.named_parameters() if k.endswith("weight")}
                 freeze(fm)
@@ -158,7 +178,12 @@ def side_effect_cases(ctx, rng):
             before = snapshot(fm)
             outs = []
             for rep in range(3):
-                o = fm(x)
+                try:
+                    o = fm(x)
+                except Exception as e:  # noqa
+                    ctx.spec_failures.append((f"C13:inference-raises:{exc_name(e)}", {"state": state, "acts": acts, "weights": wq, "message": str(e)[:200]}))
+                    outs.append(None)
+                    continue
                 outs.append(bits_of(o.dequantize() if hasattr(o, "dequantize") else o))
                 if rep == 0:
                     # any input: also inputs of another float dtype (may be rejected by torch, must not leave traces)
